@@ -85,6 +85,8 @@ package definition
 //@   loop 1 invariant [merge] d.Pipelines == old(d.Pipelines) && d.Pipelines != localDef.Pipelines && (localDef.Pipelines == nil || fresh(localDef.Pipelines)) && (forall k string :: old(k in d.Pipelines) ==> (k in d.Pipelines) && extEq(d.Pipelines[k], old(d.Pipelines[k]))) && (forall k string :: (k in d.Pipelines) && !old(k in d.Pipelines) ==> validDef(d.Pipelines[k]) && d.Pipelines[k].SourcePath == path)
 
 //@ func (*QueueStrategy).UnmarshalYAML
-//@   trusted the unmarshal callback is an injected function writing the local strategy name; only the mapping of names to constants is of interest and is read off the switch
+//@   requires [nonnil] s != nil
+//@   at return: assert [C17.strategyMap] err == nil ==> (strategyName == "append" ==> *s == QueueStrategyAppend) && (strategyName == "replace" ==> *s == QueueStrategyReplace)
+//@   ensures  [C17.strategyKnown] res == nil ==> *s == QueueStrategyAppend || *s == QueueStrategyReplace
 
 //@ property C17: definition.*/ensures[C17.*] definition.*/loop* definition.strSliceEquals/* definition.*/safety
